@@ -94,6 +94,32 @@ Proof. exact (@AllocTotal.multistage_terminates). Qed.
 Print Assumptions C02_multistage_terminates.
 End M_C02_multistage_terminates.
 
+(* completeness (Revolve): the op list is finite; from some request count on the schedule is exhausted, with no error on the way and exactly TC N s forward steps executed *)
+Module M_C02_revolve_terminates.
+Import RevolveRun.
+Theorem C02_revolve_terminates :
+  forall (tj : NAdvance.traj) (N ram disk uf ub wd rd : Z),
+         1 <= N ->
+         0 <= ram ->
+         (2 <= N -> 1 <= ram) ->
+         0 < uf ->
+         exists (L : list Ops.op) (K : nat),
+           RevConv.sequence RevConv.KRevolve N ram disk uf ub wd rd = Actions.Ok L /\
+           (forall k : nat,
+            (K <= k)%nat ->
+            let
+            '(s', m, ls) :=
+             Sched.run_ops (RevBridge4.rev_xparams N ram)
+               {|
+                 Sched.ob := Sched.ORevF RevConv.KRevolve N ram disk (RevConv.init_r L); Sched.started := false
+               |} Sched.mon0 (repeat Sched.Next k) in
+             RunFacts.mon_ok m /\
+             RunFacts.no_raise ls /\
+             Sched.is_exhausted s' = true /\ Exec.fwd_total (Exec.cnt (Sched.mx m)) = Inst.TC tj N ram).
+Proof. exact (@RevolveRun.revolve_terminates). Qed.
+Print Assumptions C02_revolve_terminates.
+End M_C02_revolve_terminates.
+
 (* completeness (Mixed, both planner paths): within N (N + 3) + N + 2 requests the schedule is exhausted (EndReverse has been emitted, by C09_flags), and by then exactly C N S forward steps have been executed *)
 Module M_C02_mixed_terminates.
 Import MixBridge.
